@@ -13,6 +13,11 @@ NEEDS = ["model/Values.v", "model/Eval.v", "model/Loader.v", "model/Serialize.v"
          "proofs/UnparseP.v", "proofs/RoundtripP.v", "extract/Extract.v"]
 
 
+import re
+NONFINITE = re.compile(r"(?<![A-Za-z0-9_{])(inf|nan|oo|zoo)(?![A-Za-z0-9_}])")
+STRINGS = re.compile(r'"[^"\n]*"')
+
+
 def gen_text(rng, i):
     if i % 9 == 0:
         # tdm programs: p-arrays by name, the variable block, strings that look like p-names
@@ -50,6 +55,10 @@ def check_case(model, impl, text, stats, generations=3):
         except Exception as e:  # noqa: BLE001
             return "generation %d: serialising a loaded program fails: %s: %s" % (g, type(e).__name__, str(e)[:120]), None
         dumps.append(d)
+        if g == 1 and NONFINITE.search(STRINGS.sub('""', d)):
+            # an expression of the script overflowed to inf / nan while loading: outside the property (finite values)
+            stats["non_finite_program"] = stats.get("non_finite_program", 0) + 1
+            return None, None
         try:
             nxt = impl.loads(d)
         except Exception as e:  # noqa: BLE001
